@@ -25,6 +25,7 @@ EXPLANATION = (
     "Decides the property for every arriving request because a handler can only be reached through the "
     "enumerated entries. Not decided: what abort() then does on the wire."
     ' Fourth session: (id-flow) only the reader that decoded a message puts it on msg_queue; (accepted-table) the partition evaluation of C11.'
+    " Sixth round: (no-stale-request) borrows C15's message-reset; (accepted-table) the public accepted / rejected views are evaluated on contexts that differ only in their ID."
 )
 
 
